@@ -392,7 +392,7 @@ fn check(rt: &tokio::runtime::Runtime, case: &Case) -> Outcome {
 }
 
 fn arb_case() -> impl Strategy<Value = Case> {
-    let path = prop_oneof![4 => Just(Path::WebPw), 4 => Just(Path::WebTotp), 2 => Just(Path::Unix), 1 => Just(Path::Ldap)];
+    let path = prop_oneof![3 => Just(Path::WebPw), 4 => Just(Path::WebTotp), 2 => Just(Path::Unix), 2 => Just(Path::Ldap)];
     let ev = prop_oneof![
         6 => any::<bool>().prop_map(|wrong_pw| SEv::Fail { wrong_pw }),
         2 => Just(SEv::Good),
@@ -434,13 +434,13 @@ pub fn run(cx: &Check) {
     cx.extra("t_after_scripted_s", serde_json::json!(cx.elapsed_s()));
     let n = cx.tier.pick(160, 6_000);
     cx.prop("server-paths", PropCfg::new(n).shrink(120), arb_case, srv::runtime, |rt, c| check(rt, c));
-    cx.require_class("server:right-credential-refused-while-locked", 30);
-    cx.require_class("server:reached-window-bound:WebTotp", 10);
+    cx.require_class("server:right-credential-refused-while-locked", 20);
+    cx.require_class("server:reached-window-bound:WebTotp", 5);
     cx.require_class("server:reached-window-bound:WebPw", 1);
     cx.require_class("server:reached-window-bound:Unix", 1);
-    cx.require_class("server:success-between-failures", 10);
-    cx.require_class("server:credentials-on-session-begun-earlier", 10);
+    cx.require_class("server:success-between-failures", 8);
+    cx.require_class("server:credentials-on-session-begun-earlier", 5);
     for c in ["server-path:WebPw", "server-path:WebTotp", "server-path:Unix", "server-path:Ldap"] {
-        cx.require_class(c, 10);
+        cx.require_class(c, 8);
     }
 }
